@@ -158,6 +158,8 @@ def generic_iterate(interp, it):
 
     if hasattr(it, "sym_iter"):
         return it.sym_iter(interp)
+    if isinstance(it, Obj) and "__iter_items__" in it.fields:
+        return list(it.fields["__iter_items__"])
     if isinstance(it, Obj):
         owner, ent = interp.class_lookup(it.cls, "__iter__") if it.cls else (None, None)
         if ent is not None:
